@@ -80,8 +80,11 @@ def path_ctor(ctx):
     Q.require(len(sto) >= 1, 'BasePath.__init__: self.suffix assignment')
 
     def failed_guards(node, *pats):
-        return [t for t, pos in F.guards_pol(node, fi)
-                if not pos and all(has(F.atoms(t, fi), *p_) for p_ in pats)]
+        """isinstance(.., <pats>) tests known to hold at node."""
+        return [t for t, pos, f_, b_ in F.guard_leaves(node, fi)
+                if pos and isinstance(t, ast.Call) and unparse(
+                    t.func) == 'isinstance' and all(
+                        has(F.atoms(t, f_, b_), *p_) for p_ in pats)]
     ok = all(bool(failed_guards(n_, ('Root',), ('InstallRoot',)))
              for v, n_ in sto)
     ctx.ob(R, '__init__|roottype-guard-dominates-suffix', ok, sto[0][1],
